@@ -569,6 +569,25 @@ class DecodedStr(Shape):
         return SDecoded(Bytes().fresh(ctx, name))
 
 
+class CharSeq(Shape):
+    """A text of arbitrary (symbolic) length, character by character."""
+
+    def __init__(self, minlen=0):
+        self.minlen = minlen
+
+    def sample(self, rng):
+        n = rng.choice([1, 2, 10, 253, 254, 255, 256, 300, 508, 509, 600])
+        t = ''.join(rng.choice('ab []"x') for _ in range(n - 1))
+        return t + rng.choice(['\n', 'z'])
+
+    def fresh(self, ctx, name):
+        from .ext import SCharSeq
+        n = ctx.fresh_int(name + '_len')
+        ctx.assume_type(n >= self.minlen)
+        arr = z3.Array(ctx.fresh_name(name + '_chars'), z3.IntSort(), z3.IntSort())
+        return SCharSeq(arr, z3.IntVal(0), n)
+
+
 class TraceList(Shape):
     """Output trace (chunks written, messages sent ...): the list of what has been appended since
     the enclosing havoc point.  Contracts state appended deltas (new == old + [...]), so resetting
